@@ -1544,6 +1544,68 @@ class D2Transforms(D2Space):
         return out
 
 
+def coord_orders(vals):
+    """Deterministic unsorted arrangements of a sorted list (inputs that drive a quicksort-family sort through its partitions)."""
+    n = len(vals)
+    k = n // 2
+    out = {"sorted": list(vals), "reversed": vals[::-1], "rotated": vals[n // 3:] + vals[:n // 3]}
+    inter = []
+    for i in range((n + 1) // 2):
+        inter.append(vals[i])
+        if n - 1 - i != i:
+            inter.append(vals[n - 1 - i])
+    out["interleaved"] = inter
+    out["organ_pipe"] = vals[0::2] + vals[1::2][::-1]
+    out["valley"] = vals[1::2][::-1] + vals[0::2]
+    step = next(st for st in (7, 11, 13, 17, 19, 23) if math.gcd(st, n) == 1)
+    out["stride"] = [vals[(i * step + 3) % n] for i in range(n)]
+    # median-of-3 killer (Musser): 1, k+1, 3, k+3, ... then 2, 4, 6, ...
+    idx = [(i if i % 2 == 1 else k + i - 1) for i in range(1, k + 1)] + [2 * j for j in range(1, k + 1)]
+    idx += list(range(2 * k + 1, n + 1))
+    out["mo3_killer"] = [vals[min(j, n) - 1] for j in idx]
+    out["duplicates"] = [vals[(i * 5) % 4 * (n // 4)] for i in range(n)]
+    out["last_smallest"] = vals[1:] + vals[:1]
+    return out
+
+
+class D2SortedReps(D2Space):
+    """ExplicitX / ExplicitY coordinate lists longer than 16 entries in unsorted order: the writer sorts a copy (its only use of
+    sort()) before emitting repetition type 4/6 spaces (or type 10 when a coordinate is negative)."""
+    name = "d2.sortedreps"
+    LENGTHS = (2, 16, 17, 18, 24, 33, 40, 64, 100)
+    CARRIERS = {"polygon": "poly 1 2 0,0 0.004,0 0.004,0.002", "flexpath": "fpath 1 1 2 0,0 5,0 1 2 0 0.1 0 flush 0 0", "label": "label 3 4 0.001,0.001 6869",
+                "reference": "ref B 0.004,-0.003 0 1 0"}
+
+    def __init__(self):
+        self.groups = [(n, sign) for n in self.LENGTHS for sign in ("nonneg", "mixed")]
+
+    def ngroups(self, tier):
+        return len(self.groups)
+
+    def describe(self, tier):
+        return ("ExplicitX and ExplicitY repetitions with %s coordinates, non-negative and with negative entries, in 10 orders (sorted, reversed, rotated, interleaved low/high, "
+                "organ pipe, valley, stride permutation, median-of-3 killer, many duplicates, smallest last) on a polygon, a simple path, a label and a reference x %s") % (
+                    list(self.LENGTHS), "level 0 / level 6 with all standard properties" if tier == "quick" else "4 option sets")
+
+    def cases(self, g, tier):
+        n, sign = self.groups[g]
+        vals = [3 * (i + 1) + (i * i) % 3 - (3 * n // 2 if sign == "mixed" else 0) for i in range(n)]
+        vals.sort()
+        out = []
+        opts = ((0, 0), (6, 0x3F)) if tier == "quick" else ((0, 0), (6, 0x3F), (9, 0x0F | 0x40), (1, 0x30))
+        for oname, arr in coord_orders(vals).items():
+            for axis in ("exx", "exy"):
+                for ci, (cname, ccmd) in enumerate(self.CARRIERS.items()):
+                    rcmd = "rep %s %d %s" % (axis, len(arr), " ".join(fnum(v / 1000) for v in arr))
+                    cmds = ["cell A", ccmd, rcmd, "cell B", "poly 0 0 0,0 0.004,0 0.004,0.002"]
+                    for oi, (lvl, fl) in enumerate(opts):
+                        if tier == "quick" and oi == 1 and ci != (n + len(oname)) % 4:
+                            continue  # second option set on one carrier per (length, order)
+                        out.append({"cmds": cmds, "level": lvl, "flags": fl, "tol": 0, "hints": {},
+                                    "label": {"carrier": cname, "axis": axis, "n": n, "order": oname, "sign": sign, "level": lvl, "flags": fl}})
+        return out
+
+
 class D2History(D2Space):
     """Save histories on ONE Library object: every written file must be true about itself."""
     name = "d2.history"
@@ -1599,7 +1661,7 @@ class D2History(D2Space):
         return out
 
 
-D2_SPACES = [D2Shapes, D2Elements, D2PropCounts, D2Transforms, D2History, D2Options]
+D2_SPACES = [D2Shapes, D2Elements, D2PropCounts, D2Transforms, D2SortedReps, D2History, D2Options]
 
 
 # ---------------------------------------------------------------------------- direction 2: model of the saved library
